@@ -188,5 +188,18 @@ func c05Cases(level int) []SCase {
 			}
 		}
 	}
+	// fractional bounds on integers (a handful: the current implementation truncates them, listed finding INT_BOUND_TRUNCATED)
+	for _, fb := range []J{{"minimum": 1.5}, {"maximum": 7.5}, {"minimum": 1.5, "maximum": 7.5}, {"minimum": -4.5, "maximum": -1.5}, {"exclusiveMinimum": 1.5}, {"exclusiveMaximum": 7.5}} {
+		l := J{"type": "integer"}
+		name := "integer-fractional"
+		for _, k := range space.SortedKeys(fb) {
+			l[k] = fb[k]
+			name += fmt.Sprintf(",%s=%v", k, fb[k])
+		}
+		out = append(out, SCase{ID: "C05/props/" + name, Cfg: baseCfg(), Axes: map[string]string{"pos": "props", "leaf": name},
+			Schema: J{"type": "object", "properties": J{"r": l, "o": l, "no": space.MakeNullable(l, 0)}, "required": A{"r"}}})
+		out = append(out, SCase{ID: "C05/def/" + name, Cfg: baseCfg(), Axes: map[string]string{"pos": "def", "leaf": name},
+			Schema: J{"type": "object", "properties": J{"d": J{"$ref": "#/$defs/D"}}, "required": A{"d"}, "$defs": J{"D": l}}})
+	}
 	return out
 }
